@@ -1,13 +1,16 @@
 """C10 - a message reaches only its own exchange, and the receive path never wedges.
 
-1. TLC checks exhaustively (2 exchange ids, 2 handlers, 4 peer datagrams of any exchange id / initiator flag / reliable
-   flag, every handler policy per exchange: reply, drop, hold) that the receive-slot machine transcribed from transport.rs /
-   exchange.rs (RxSlot.tla) keeps RightExchangeOnly and OpensOnlyIfAllowed, and - under fairness of the sweepers and of the
-   owners - SlotEventuallyFree and EventuallyClean (liveness).
-2. TLC-simulated disturbance schedules (3 exchange ids, 7 datagrams, random policies) plus harness-made ones (unsecured
-   status reports that belong to nothing, datagrams for a missing session) are replayed against a real device Matter with
-   two responder handlers following the policies; the peer is a raw injector holding the keys of two planted sessions;
-   after 8 s a fresh probe request is sent on the other session.
+1. TLC checks exhaustively (2 sessions x 2 exchange ids - the same id may be live on both sessions -, 2 handlers, 3-4 peer
+   datagrams of any session / exchange id / initiator flag / reliable flag, a stray datagram, every handler policy per
+   exchange id: reply, drop, hold, relDrop = answer reliably and drop at once, which makes the device close the whole
+   session) that the receive-slot machine transcribed from transport.rs / exchange.rs (RxSlot.tla) keeps RightExchangeOnly
+   and OpensOnlyIfAllowed, and - under fairness of the sweepers and of the owners - SlotEventuallyFree and EventuallyClean.
+2. TLC-simulated disturbance schedules (2 sessions x 3 exchange ids, 8 datagrams, random policies) plus harness-made ones
+   (unsecured strays, the same exchange id on two sessions while the first owner waits for its next message, a message
+   parked for accept while its session is closed under it) are replayed against a real device Matter with two responder
+   handlers following the policies; the peer is a raw injector holding the keys of three planted sessions; after 8 s a
+   fresh probe request is sent on the third session.  Handlers report the (session, exchange) they really own, read from
+   the device's own tables through the snapshot hook.
 3. TLC validates the recorded Inj / AppRx / Tx / Probe / End traces against Layer P (RxSlotProp.tla)."""
 import json, os
 import vlib
@@ -49,7 +52,7 @@ def run(tier, seed):
     good = [e for ri, run in enumerate(vlib.split_runs(ev)) if ri not in bad for e in run]
     k = next(i for i, e in enumerate(good) if e.get("ev") == "AppRx" and i > 3)
     ev2 = [dict(e) for e in good[:k + 20]]
-    ev2[k]["tag"] = ev2[k]["tag"] + 1          # a handler gets a message of another exchange
+    ev2[k]["ts"] = 3 - ev2[k]["ts"] if ev2[k]["ts"] in (1, 2) else 1          # a handler gets a message sent on another session
     cpath = os.path.join(wd, "trace_corrupt.ndjson")
     vlib.write_ndjson(cpath, ev2)
     r2 = vlib.tlc_trace("C10", "RxSlotTrace.tla", "RxSlotTrace.cfg", cpath, tag="selftest")
@@ -60,13 +63,13 @@ def run(tier, seed):
         "traces_validated_against_impl": n_runs, "exhaustive": False,
         "design_model_runs": [{k2: mc[k2] for k2 in ("cfg", "generated", "distinct", "depth", "wall_s")}],
         "design_models_exhaustive": True, "design_liveness_checked": ["SlotEventuallyFree", "EventuallyClean"],
-        "generator": {"cfg": "GenRxSlot.cfg", "schedules": len(beh), "harness_made": 2},
+        "generator": {"cfg": "GenRxSlot.cfg", "schedules": len(beh), "harness_made": 5},
         "replay": summ,
         "trace_validation": {"spec": "RxSlotTrace.tla (Layer P = RxSlotProp.tla)", "events": len(ev), "states": states, "rejected_runs": len(rej),
                              "app_receipts": sum(1 for e in ev if e.get("ev") == "AppRx"), "probes_answered": sum(1 for e in ev if e.get("ev") == "ProbeAnswered")},
         "binding_selftest": {"corrupted_event": k + 1, "rejected_at": r2.get("rejected_at"), "ok": True},
         "samples": [beh[0], ev[:14]],
     })
-    ck.assumptions += ["one secured session carries the disturbance, the probe arrives on a second one; handlers answer with unreliable messages",
-                       "a CloseSession status report on a fresh exchange is dropped by the stack (not a candidate for a new exchange), so the model's SessionGone step is exercised with datagrams for a missing session instead"]
+    ck.assumptions += ["two secured sessions carry the disturbance, the probe arrives on a third one",
+                       "an unsecured SessionNotFound answer is admitted for every secured datagram injected on a session the device has removed by the time the answer is observed (the datagram may have been waiting in the socket)"]
     return ck.finish()
